@@ -99,3 +99,13 @@ fn iso_diagnostics_to_params<TCompilationProfile: CompilationProfile>(
         paths,
     )
 }
+
+#[cfg(feature = "isographlabs_isograph_verif")]
+pub fn verif_iso_diagnostics_to_params<TCompilationProfile: CompilationProfile>(
+    db: &IsographDatabase<TCompilationProfile>,
+    diagnostics: &[Diagnostic],
+    old_uris_with_diagnostics: BTreeSet<Uri>,
+) -> (Vec<PublishDiagnosticsParams>, BTreeSet<Uri>) {
+    let (params, uris) = iso_diagnostics_to_params(db, diagnostics, old_uris_with_diagnostics);
+    (params.collect(), uris)
+}
